@@ -266,8 +266,23 @@ pub fn lib_call<T, F: FnOnce() -> T, C: FnOnce() -> Value>(
     ctx: C,
     f: F,
 ) -> Option<T> {
-    match guarded(f) {
-        Ok(v) => Some(v),
+    let t0 = thread_cpu_ns();
+    let r = guarded(f);
+    let used = thread_cpu_ns().saturating_sub(t0);
+    match r {
+        Ok(v) => {
+            // "Hang" has a second face: a call that does return, but only after seconds of CPU time
+            // for a few bytes of input.  No monitored call of any workload needs more than a
+            // fraction of a second of its own thread's CPU time (measured per thread, so machine
+            // load does not enter); the per-case watchdog stays as the outer net.
+            if used > call_cpu_limit_ns() {
+                out.violation(
+                    "library-call-burns-cpu-time-out-of-all-proportion",
+                    json!({"call": what, "thread_cpu_seconds": used as f64 / 1e9, "limit_seconds": call_cpu_limit_ns() as f64 / 1e9, "context": ctx()}),
+                );
+            }
+            Some(v)
+        }
         Err((loc, msg)) => {
             let sig = panic_signature(&loc, &msg);
             out.violation(
@@ -277,6 +292,27 @@ pub fn lib_call<T, F: FnOnce() -> T, C: FnOnce() -> Value>(
             None
         }
     }
+}
+
+/// CPU time consumed by the calling thread (0 under Miri, which does not model it).
+pub fn thread_cpu_ns() -> u64 {
+    if cfg!(miri) {
+        return 0;
+    }
+    let mut ts = libc::timespec { tv_sec: 0, tv_nsec: 0 };
+    unsafe {
+        libc::clock_gettime(libc::CLOCK_THREAD_CPUTIME_ID, &mut ts);
+    }
+    ts.tv_sec as u64 * 1_000_000_000 + ts.tv_nsec as u64
+}
+
+/// 4 CPU-seconds per monitored library call, times RMLV_SLOW_FACTOR (set by the valgrind slice).
+pub fn call_cpu_limit_ns() -> u64 {
+    static LIMIT: std::sync::OnceLock<u64> = std::sync::OnceLock::new();
+    *LIMIT.get_or_init(|| {
+        let f: u64 = std::env::var("RMLV_SLOW_FACTOR").ok().and_then(|x| x.parse().ok()).unwrap_or(1);
+        4_000_000_000u64.saturating_mul(f.max(1))
+    })
 }
 
 // ---------------------------------------------------------------------------------------------
